@@ -6,3 +6,6 @@ build/gx: tools/gx/gx.cc
 	clang++ $(LLVM_CXXFLAGS) -fno-rtti -O1 tools/gx/gx.cc -o build/gx /usr/lib/llvm-14/lib/libclang-cpp.so.14 /usr/lib/llvm-14/lib/libLLVM-14.so
 clean:
 	rm -rf build
+build/gm: tools/gm/gm.cc
+	mkdir -p build
+	clang++ $(LLVM_CXXFLAGS) -fno-rtti -O1 tools/gm/gm.cc -o build/gm /usr/lib/llvm-14/lib/libclang-cpp.so.14 /usr/lib/llvm-14/lib/libLLVM-14.so
